@@ -36,6 +36,7 @@ const (
 	kRethrow   // throw <catch variable> inside a catch block with an identifier
 	kThrowObj  // throw error("o<k>")
 	kCallInLit // log("r", [7, 8, fN()][2]): a call while a literal is half built
+	kSelfRet   // if dN < 3 { return fN() }: bounded self-recursion in return position (tail-call path)
 )
 
 type c03Node struct {
@@ -76,7 +77,7 @@ func (g *c03Gen) stmts(n int, role string, depth int, inLoop bool, fn int) []*c0
 	var out []*c03Node
 	for i := 0; i < n && g.budget > 0; i++ {
 		g.budget--
-		w := []int{5, 4, 2, 2, 1, 1, 2, 2, 2, 5, 1, 2, 1, 1, 1}
+		w := []int{5, 4, 2, 2, 1, 1, 2, 2, 2, 5, 1, 2, 1, 1, 1, 1}
 		if !inLoop {
 			w[kBreak], w[kContinue] = 0, 0
 		}
@@ -112,8 +113,14 @@ func (g *c03Gen) stmts(n int, role string, depth int, inLoop bool, fn int) []*c0
 			out = append(out, &c03Node{kind: kContinue})
 			return out
 		case kReturn:
-			out = append(out, &c03Node{kind: kReturn, k: 100 + g.t.Draw(50)})
+			nd := &c03Node{kind: kReturn, k: 100 + g.t.Draw(50)}
+			if g.t.Bool(1, 4) {
+				nd.k = -1 // a bare return
+			}
+			out = append(out, nd)
 			return out
+		case kSelfRet:
+			out = append(out, &c03Node{kind: kSelfRet, k: fn})
 		case kThrow:
 			out = append(out, &c03Node{kind: kThrow, k: g.t.Draw(50)})
 			return out
@@ -233,7 +240,13 @@ func (r *c03Render) node(n *c03Node, lvl int) {
 	case kContinue:
 		fmt.Fprintf(&r.sb, "%scontinue\n", in)
 	case kReturn:
-		fmt.Fprintf(&r.sb, "%sreturn %d\n", in, n.k)
+		if n.k < 0 {
+			fmt.Fprintf(&r.sb, "%sreturn\n", in)
+		} else {
+			fmt.Fprintf(&r.sb, "%sreturn %d\n", in, n.k)
+		}
+	case kSelfRet:
+		fmt.Fprintf(&r.sb, "%sif d%d < 3 { return f%d() }\n", in, n.k, n.k)
 	case kThrow:
 		fmt.Fprintf(&r.sb, "%sthrow \"t%d\"\n", in, n.k)
 	case kCall:
@@ -276,7 +289,8 @@ func c03Script(fns [][]*c03Node) string {
 	r.sb.WriteString(sim.Prelude)
 	// later functions are defined first so that earlier ones can call them
 	for i := len(fns) - 1; i >= 0; i-- {
-		fmt.Fprintf(&r.sb, "f%d := func() {\n", i)
+		// dN counts the activations of fN (bounds its self-recursion); var first, so that the body can name itself
+		fmt.Fprintf(&r.sb, "d%[1]d := 0\nvar f%[1]d\nf%[1]d = func() {\n\td%[1]d++\n", i)
 		r.block(fns[i], 1)
 		r.sb.WriteString("}\n")
 	}
@@ -301,6 +315,13 @@ type c03Model struct {
 	fns     [][]*c03Node
 	steps   int
 	caught  map[int]c03Compl // catch identifier → error it holds
+	depth   map[int]int      // activations per function
+}
+
+// call activates function n (its activation counter first, as the script does).
+func (m *c03Model) call(n int) c03Compl {
+	m.depth[n]++
+	return m.block(m.fns[n])
 }
 
 func (m *c03Model) block(ns []*c03Node) c03Compl {
@@ -358,7 +379,21 @@ func (m *c03Model) node(n *c03Node) c03Compl {
 	case kContinue:
 		return c03Compl{kind: 3}
 	case kReturn:
+		if n.k < 0 {
+			return c03Compl{kind: 1, undef: true}
+		}
 		return c03Compl{kind: 1, val: n.k}
+	case kSelfRet:
+		if m.depth[n.k] < 3 {
+			c := m.call(n.k)
+			if c.kind == 4 {
+				return c
+			}
+			if c.kind == 1 {
+				return c
+			}
+			return c03Compl{kind: 1, undef: true}
+		}
 	case kThrow:
 		return c03Compl{kind: 4, name: "", msg: fmt.Sprintf("t%d", n.k)}
 	case kRtErr:
@@ -379,21 +414,21 @@ func (m *c03Model) node(n *c03Node) c03Compl {
 	case kThrowObj:
 		return c03Compl{kind: 4, name: "error", msg: fmt.Sprintf("o%d", n.k)}
 	case kCallInLit:
-		c := m.block(m.fns[n.k])
-		switch c.kind {
-		case 4:
+		c := m.call(n.k)
+		switch {
+		case c.kind == 4:
 			return c
-		case 1:
+		case c.kind == 1 && !c.undef:
 			m.hist = append(m.hist, fmt.Sprintf("s:\"r\" i:%d", c.val))
 		default:
 			m.hist = append(m.hist, "s:\"r\" undefined")
 		}
 	case kCall:
-		c := m.block(m.fns[n.k])
-		switch c.kind {
-		case 4:
+		c := m.call(n.k)
+		switch {
+		case c.kind == 4:
 			return c
-		case 1:
+		case c.kind == 1 && !c.undef:
 			m.hist = append(m.hist, fmt.Sprintf("s:\"r\" i:%d", c.val))
 		default:
 			m.hist = append(m.hist, "s:\"r\" undefined")
@@ -448,14 +483,17 @@ func c03Run(rc *sim.RunCtx) {
 	src := c03Script(fns)
 
 	// reference model
-	m := &c03Model{spec: ws, occ: map[int]int{}, chooseN: map[int]int{}, fns: fns, caught: map[int]c03Compl{}}
-	mc := m.block(fns[0])
+	m := &c03Model{spec: ws, occ: map[int]int{}, chooseN: map[int]int{}, fns: fns, caught: map[int]c03Compl{}, depth: map[int]int{}}
+	mc := m.call(0)
 	var want sim.Outcome
 	switch mc.kind {
 	case 4:
 		want = sim.Outcome{Kind: "error", Value: fmt.Sprintf("error(%s:%q)", mc.name, mc.msg), Hist: m.hist}
 	case 1:
 		want = sim.Outcome{Kind: "value", Value: fmt.Sprintf("i:%d", mc.val), Hist: m.hist}
+		if mc.undef {
+			want.Value = "undefined"
+		}
 	default:
 		want = sim.Outcome{Kind: "value", Value: "undefined", Hist: m.hist}
 	}
@@ -580,7 +618,7 @@ func skeleton(fns [][]*c03Node) string {
 	var walk func(ns []*c03Node)
 	walk = func(ns []*c03Node) {
 		for _, n := range ns {
-			sb.WriteString([]string{"L", "O", "I", "F", "B", "C", "R", "T", "K", "Y", "X", "N", "W", "E", "A"}[n.kind])
+			sb.WriteString([]string{"L", "O", "I", "F", "B", "C", "R", "T", "K", "Y", "X", "N", "W", "E", "A", "S"}[n.kind])
 			if n.kind == kTry || n.kind == kIf || n.kind == kLoop || n.kind == kLoopIn {
 				sb.WriteByte('{')
 				walk(n.body)
@@ -616,7 +654,7 @@ func init() {
 			"distinct = distinct (nest skeleton, fired-fault vector).",
 		Assumptions: []string{
 			"the reference model (≈120 lines) encodes the documented semantics: finally overrides only with an abrupt completion of its own; a failing host call is a throw",
-			"stack overflow (the documented exception) and self-recursion are never generated",
+			"stack overflow (the documented exception) is never generated; self-recursion only as `return f()` bounded by an activation counter (never a bare self-call as last statement: that is the tail-call path of C02)",
 			"thrown strings surface as error Name \"\" and Message = the string; host Go errors likewise; *ugo.Error keeps its Name",
 		},
 		Real:      []string{"parser", "optimizer (2/3 of runs)", "compiler", "VM"},
